@@ -11,12 +11,7 @@
 #ifndef C14_MACHINE_H
 #define C14_MACHINE_H
 
-#include "common/hv.h"
-#include <map>
-#include <memory>
-#include <optional>
-#include <algorithm>
-#include <initializer_list>
+#include "C14/prelude.h"
 
 namespace c14
 {
@@ -401,6 +396,48 @@ template <class V> constexpr int msize_bits()
         return 8 * (int)sizeof(size_t);
 }
 
+// Number of slots of the inline storage of a vector type, read from the compiled class when the member is still
+// called `_data` (an internal name: optional).  0 = not nameable; the caller then falls back on the public API.
+template <class V> constexpr size_t data_slots()
+{
+    if constexpr (requires { sizeof(V::_data); std::extent_v<decltype(V::_data)>; })
+    {
+        using Slot = std::remove_extent_t<decltype(V::_data)>;
+        if constexpr (sizeof(Slot) > 0 && std::is_array_v<decltype(V::_data)>) return std::extent_v<decltype(V::_data)>;
+        else return 0;
+    }
+    else
+        return 0;
+}
+// sizeof one slot of `_data`, 0 = not nameable
+template <class V> constexpr size_t data_slot_bytes()
+{
+    if constexpr (requires { sizeof(V::_data); })
+    {
+        if constexpr (std::is_array_v<decltype(V::_data)>) return sizeof(std::remove_extent_t<decltype(V::_data)>);
+        else return 0;
+    }
+    else
+        return 0;
+}
+// Bytes of the character array of a string type: `_data` (std_portable.h) or `data` (container/; there `data` is the
+// array itself, in std_portable.h it is a member function).  0 = neither name denotes an array any more.
+template <class S> constexpr size_t str_bytes()
+{
+    if constexpr (requires { sizeof(S::_data); })
+    {
+        if constexpr (std::is_array_v<decltype(S::_data)>) return sizeof(S::_data);
+        else return 0;
+    }
+    else if constexpr (requires { sizeof(decltype(S::data)); })
+    {
+        if constexpr (std::is_array_v<decltype(S::data)>) return sizeof(decltype(S::data));
+        else return 0;
+    }
+    else
+        return 0;
+}
+
 struct IMachine
     {
         virtual ~IMachine() {}
@@ -451,7 +488,25 @@ struct IMachine
         bool canary;
         std::vector<Reg> regs;
 
-        VMachine(int k, bool c) : K(k), canary(c), regs(k) { L().reset(); }
+        // Where the inline storage lies inside the object: probed once per instantiation on a default-constructed
+        // object through the public data() (the property fixes "inline storage", not the order of the members).
+        static size_t data_offset()
+        {
+            static const size_t off = [] {
+                Place pl(false, sizeof(Vec));
+                Vec *v = new (pl.obj) Vec();
+                size_t o = (size_t)((const char *)v->data() - (const char *)pl.obj);
+                v->~Vec();
+                return o;
+            }();
+            return off;
+        }
+
+        VMachine(int k, bool c) : K(k), canary(c), regs(k)
+        {
+            L().reset();
+            data_offset();
+        }
         ~VMachine() override
         {
             // a case that was cut short: drop the objects without running igris code
@@ -477,8 +532,8 @@ struct IMachine
         // storage must be known to the ledger BEFORE the constructor runs
         void preregister(int r, void *mem)
         {
-            // _data is the first member: data() == (T*)this.  Checked after construction.
-            L().regions.push_back({(const char *)mem, N, sizeof(T), r});
+            // the storage starts data_offset() bytes into the object (checked against data() after every op)
+            L().regions.push_back({(const char *)mem + data_offset(), N, sizeof(T), r});
         }
         void unregister(int r)
         {
@@ -592,17 +647,32 @@ struct IMachine
         {
             if (w0[0] == "width")
             {
-                // what the compiled code contains: the width of the counter, the number of slots of _data
+                // What the compiled code contains.  The width of the counter is not fixed by the property: the
+                // generator passes it to the model (op argument), the result only echoes it.  The number of slots
+                // of the storage is N or more (more = padding, harmless): reported as a tag, the result says
+                // "slots=N" when the storage holds at least N elements.  `_data` / `m_size` are internal names:
+                // when they are gone the public API answers (room() of an empty object, sizeof the object).
                 int w = width();
-                size_t slots = 0;
-                if constexpr (N > 0) slots = sizeof(Vec::_data) / sizeof(typename std::remove_extent<decltype(Vec::_data)>::type);
-                o.result = "w=" + std::to_string(w) + " slots=" + std::to_string(slots);
+                size_t slots = data_slots<Vec>();
+                if (slots == 0 && N > 0)
+                {
+                    Place pl(false, sizeof(Vec));
+                    Vec *v = new (pl.obj) Vec();
+                    slots = v->room() + v->size();
+                    if (sizeof(Vec) < data_offset() + slots * sizeof(T)) slots = (sizeof(Vec) - data_offset()) / sizeof(T);
+                    v->~Vec();
+                    o.tag("slots-by-room");
+                }
+                o.result = "w=" + std::to_string(w) + " slots=" + std::to_string(slots >= N ? N : slots);
                 o.tag(("w" + std::to_string(w)).c_str());
+                o.tag(("slots" + std::to_string(slots)).c_str());
+                // the contract on element destructors (notes, `dtor_throw_breaks_invariant`): the container's own
+                // destructor is noexcept, so an exception leaving ~T() inside it ends in std::terminate
+                o.tag(std::is_nothrow_destructible_v<Vec> ? "dtor-noexcept" : "dtor-may-throw");
                 if (!counter_fits(w, N))
                     o.fail("m_size has " + std::to_string(w) + " bits: it cannot hold the sizes 0.." + std::to_string(N));
-                if (slots != N) o.fail("_data has " + std::to_string(slots) + " slots, N=" + std::to_string(N));
-                if constexpr (N > 0)
-                    if (sizeof(typename std::remove_extent<decltype(Vec::_data)>::type) < sizeof(T)) o.fail("a slot is smaller than T");
+                if (slots < N) o.fail("the storage has " + std::to_string(slots) + " slots, N=" + std::to_string(N));
+                if (data_slot_bytes<Vec>() != 0 && data_slot_bytes<Vec>() < sizeof(T)) o.fail("a slot is smaller than T");
                 return;
             }
             // `thr k <op>`: the (k+1)-th element construction inside <op> throws
@@ -1002,8 +1072,11 @@ struct IMachine
                 const Vec &cv = v;
                 size_t sz = v.size();
                 st += std::to_string(sz) + "/" + std::to_string(v.room()) + "[";
-                if ((const void *)v.data() != (const void *)regs[q].place->obj)
-                    o.fail("data() is not the start of the object");
+                // inline storage: N slots of T, inside the object, at the same place for every object of the type
+                if ((const char *)v.data() != (const char *)regs[q].place->obj + data_offset())
+                    o.fail("data() moved inside the object");
+                if (data_offset() + N * sizeof(T) > sizeof(Vec))
+                    o.fail("the storage of N elements does not lie inside the object");
                 if (sz > N)
                 {
                     o.fail("size " + std::to_string(sz) + " > N=" + std::to_string(N));
@@ -1150,14 +1223,21 @@ struct IMachine
             std::string res = "-";
             if (c == "width")
             {
+                // N characters and the terminator of c_str() need N + 1 bytes; more is harmless (tag, not result);
+                // `data` / `_data` are internal names: 0 = not nameable, then sizeof the object bounds the storage
                 int wd = width();
-                size_t bytes;
-                if constexpr (port) bytes = sizeof(Str::_data); else bytes = sizeof(Str::data);
-                o.result = "w=" + std::to_string(wd) + " bytes=" + std::to_string(bytes);
+                size_t bytes = str_bytes<Str>();
+                if (bytes == 0)
+                {
+                    bytes = sizeof(Str);
+                    o.tag("bytes-by-sizeof");
+                }
+                o.result = "w=" + std::to_string(wd) + " bytes=" + std::to_string(bytes >= N + 1 ? N + 1 : bytes);
                 o.tag(("w" + std::to_string(wd)).c_str());
+                o.tag(("bytes" + std::to_string(bytes)).c_str());
                 if (!counter_fits(wd, N))
                     o.fail("m_size has " + std::to_string(wd) + " bits: it cannot hold the sizes 0.." + std::to_string(N));
-                if (bytes != N + 1) o.fail("data has " + std::to_string(bytes) + " bytes, N+1=" + std::to_string(N + 1));
+                if (bytes < N + 1) o.fail("data has " + std::to_string(bytes) + " bytes, N+1=" + std::to_string(N + 1));
                 return;
             }
             if (c == "sgetany")
